@@ -13,8 +13,15 @@ a parameter itself, `p.attr`, `p[...]` (a view), `np.asarray(p)`, `p.view(..)`, 
                  clear update add setdefault`) on a parameter / alias, or `np.copyto / np.put / np.place / np.putmask /
                  np.<ufunc>.at` with one as first argument;
 * kind `flags` — `x.flags.writeable = <v>` / `x.setflags(write=<v>)` below a parameter / alias (detail = the value);
-* kind `attr`  — `x.name = …` with x a parameter other than `self`/`cls` (or below one).
+* kind `attr`  — `x.name = …` with x a parameter other than `self`/`cls` (or below one);
+* kind `return`— a `return` whose value (or one element of a returned tuple) may *be* a parameter other than `self`/`cls` or a
+                 view of one, un-copied: the caller's object is handed on under another name.  detail = `to_jds` for the
+                 `_to_jds` / `to_jds` methods of the format classes — what they return is stored as the `jd1`/`jd2` of a time
+                 object and frozen by `TimeBase.__new__`, so an entry there means: the caller's array comes back read-only and
+                 the "immutable" time changes when the caller reuses the array — and `other` elsewhere.
 
+Aliasing is not an in-place write, so the `return` class is an obligation of its own (Props/C03 `no_aliasing_constructor`:
+no `return`/`to_jds` entry) and the switch `aliases` of the epoch-constructor heap model (`ctorTimeH`).
 Entries whose root parameter is named `memo` (the deepcopy protocol of `subset`, `insert`, `__deepcopy__`) are marked root=memo.
 The obligations of Props/C03 over this table: no `aug/store/out/call/attr` entry outside the memo protocol, and every `flags`
 entry only *freezes* (`False`).  The heap model of `Model/TimeArrays.lean` takes `writesOperand` from this table.
@@ -134,6 +141,13 @@ def scan_function(qual: str, fn: ast.FunctionDef) -> List[Tuple[str, str, str, s
                         rep("attr", t, "", rs)
                     else:
                         rep("selfattr", t, "", rs)
+        elif isinstance(n, ast.Return) and n.value is not None:
+            elts = list(n.value.elts) if isinstance(n.value, (ast.Tuple, ast.List)) else [n.value]
+            where = "to_jds" if fn.name in ("_to_jds", "to_jds") else "other"
+            for e in elts:
+                rs = roots(e, alias) - {"self", "cls"}
+                if rs:
+                    rep("return", e, where, rs)
         elif isinstance(n, ast.Delete):
             for t in n.targets:
                 if isinstance(t, (ast.Subscript, ast.Attribute)):
@@ -200,7 +214,7 @@ Every in-place operation of midgard/data/_time.py on an object the function did 
 
 namespace Midgard.Generated.TimePurity
 
-/-- one in-place operation: function, kind (aug | store | out | call | flags | attr | selfattr), target text, detail, the
+/-- one in-place operation: function, kind (aug | store | out | call | flags | attr | selfattr | return), target text, detail, the
 parameter it may alias -/
 structure InPlace where
   fn : String
